@@ -2,7 +2,7 @@
 use crate::cli::*;
 use crate::formats;
 use crate::util::*;
-use asca::RuleGroup;
+use asca::{ASCAError, RuleGroup};
 use serde_json::{json, Value};
 
 #[derive(Clone, Debug)]
@@ -242,11 +242,55 @@ pub fn run() -> i32 {
     let mut t2 = Acc::default();
     par_fold(seqs.len(), 4, Acc::default, |i, a| line_kind_case(i, &seqs[i], a), |a| t2.merge(a));
     r.boxes.push(json!({"box": format!("rsca line-kind sequences <= {}", nmax), "files": seqs.len(), "comparisons": t2.evals, "cli_processes": t2.procs, "held": t2.ok}));
+    // errors: for a faulty rule line, alias line (either section, at every index, next to differing lines of the other section) or word, `asca run`
+    // prints what the library returns for those files: the formatted error of asca::run, line for line
+    let mut t3 = Acc::default();
+    {
+        let strip = |s: &str| -> Vec<String> { s.lines().map(|l| l.trim_end().to_string()).filter(|l| !l.trim().is_empty()).collect() };
+        let rules_ok = "@ one\n    a > e\n@ two\n    t > d / V_V\n"; let words_ok = "pa.ta\nta\n";
+        let mut cases: Vec<(String, String, Option<String>)> = vec![];
+        // alias faults: the faulty line at index k of its section, the other section holding different lines (more of them, and fewer)
+        for fault in ["ŋ > [+foo]", "q >", "x > a:[-long, +overlong]"] { for k in 0..3usize { for other in [vec!["ng > ŋ", "sh > ʃ", "ch > t͡ʃ", "kh > x"], vec!["sh > ʃ"], vec![]] {
+            for into_faulty in [true, false] {
+                let good_into = ["sh > ʃ", "c > k", "ph > f"]; let good_from = ["ʃ > sh", "k > c", "f > ph"];
+                let mut mine: Vec<String> = (if into_faulty { good_into } else { good_from }).iter().map(|x| x.to_string()).collect();
+                let f = if into_faulty { fault.to_string() } else { let mut p = fault.splitn(2, " >"); let l = p.next().unwrap_or(""); format!("{} > {}", if l == "x" { "a:[-long, +overlong]" } else if l == "q" { "" } else { "[+foo]" }, if l == "q" { "" } else { "x" }).trim().to_string() };
+                mine.insert(k.min(mine.len()), f);
+                let theirs: Vec<String> = if into_faulty { other.iter().map(|l| { let mut p = l.splitn(2, " > "); let a = p.next().unwrap(); let b = p.next().unwrap(); format!("{} > {}", b, a) }).collect() } else { other.iter().map(|x| x.to_string()).collect() };
+                let (into, from) = if into_faulty { (mine, theirs) } else { (theirs, mine) };
+                let al = format!("@into\n{}\n@from\n{}\n", into.iter().map(|l| format!("    {}", l)).collect::<Vec<_>>().join("\n"), from.iter().map(|l| format!("    {}", l)).collect::<Vec<_>>().join("\n"));
+                cases.push((rules_ok.to_string(), words_ok.to_string(), Some(al)));
+            }
+        } } }
+        for fault in ["a > [+foo]", "a > ", "V > [Aback] / _", "a = b"] { for at in 0..2usize {
+            let rs = if at == 0 { format!("@ one\n    {}\n@ two\n    t > d / V_V\n", fault) } else { format!("@ one\n    a > e\n@ two\n    t > d / V_V\n    {}\n", fault) };
+            cases.push((rs, words_ok.to_string(), None));
+        } }
+        for w in ["pa.ta\np#a\n", "ˈ\nta\n", "ta\na12345\n"] { cases.push((rules_ok.to_string(), w.to_string(), None)); }
+        for (n, (rs, ws, al)) in cases.iter().enumerate() {
+            let sb = Sandbox::new("c19e", n);
+            sb.write("in.rsca", rs); sb.write("in.wsca", ws); if let Some(a) = al { sb.write("in.alias", a); }
+            let groups = formats::parse_rsca(rs); let words = formats::parse_wsca(ws);
+            let (into, from) = match al { Some(a) => formats::parse_alias(a), None => (vec![], vec![]) };
+            let mut args = vec!["run", "-r", "in.rsca", "-w", "in.wsca"]; if al.is_some() { args.extend(["-l", "in.alias"]); }
+            let o = run_cli(&sb.dir, &args); t3.procs += 1; t3.evals += 1;
+            let lib = guarded(5_000_000, || asca::run(&groups, &words, &into, &from));
+            let Out::Ok(Err(e)) = lib else { continue };   // not every combination is an error (a faulty target is only met when a word uses its string)
+            let shown = match guarded(1_000_000, || match &e { asca::Error::AliasSyn(_) | asca::Error::AliasRun(_) => e.format_alias_error(&into, &from), asca::Error::WordSyn(_) | asca::Error::WordRun(_) => e.format_word_error(&words), _ => e.format_rule_error(&groups) }) { Out::Ok(t) => t, _ => continue };
+            let want = strip(&shown); let got = strip(&format!("{}\n{}", o.stdout, o.stderr));
+            if !want.is_empty() && want.iter().all(|l| got.contains(l)) { t3.ok += 1; } else {
+                t3.viols.push(Viol { key: format!("run-error-display|{}|{}|{}", rs.replace('\n', "⏎"), ws.replace('\n', "⏎"), al.clone().unwrap_or_default().replace('\n', "⏎")), desc: format!("`asca run` on files the library rejects with {:?}: the library's formatted error is {:?}; the command printed {:?} (exit {:?})", e, want, got, o.code), case: json!({"kind": "errors"}) });
+            }
+        }
+        cleanup("c19e");
+        r.boxes.push(json!({"box": "errors: what `asca run` prints for a faulty rule / alias / word file is the library's formatted error", "cases": t3.evals, "cli_processes": t3.procs, "held": t3.ok}));
+        r.guard(t3.ok > 40, "error display box: more than 40 cases held");
+    }
     cleanup("c19"); cleanup("c19l");
     r.guard(t.ok > 500 && t2.ok > 500, "more than 500 comparisons held in each box");
-    r.evaluations = t.evals + t2.evals; r.transitions = t.procs + t2.procs; r.validated = t.ok + t2.ok; r.nontrivial = r.validated; r.states_count_override = Some((jobs.len() + seqs.len()) as u64);
+    r.evaluations = t.evals + t2.evals + t3.evals; r.transitions = t.procs + t2.procs + t3.procs; r.validated = t.ok + t2.ok + t3.ok; r.nontrivial = r.validated; r.states_count_override = Some((jobs.len() + seqs.len()) as u64);
     r.sample(json!({"rsca": rsca_text(&projs[projs.len() / 2].0.groups, 7)})); r.sample(json!({"wsca": wsca_text(&projs[1].1)}));
-    for v in t.viols.into_iter().chain(t2.viols) { if v.key.starts_with("MACHINERY") { r.machinery_errors.push(v.desc.clone()); } else { r.viol(v); } }
+    for v in t.viols.into_iter().chain(t2.viols).chain(t3.viols) { if v.key.starts_with("MACHINERY") { r.machinery_errors.push(v.desc.clone()); } else { r.viol(v); } }
     r.finish()
 }
 
